@@ -112,6 +112,15 @@ impl Property for C10 {
                         let at = src.choice(e.decls.len() + 1);
                         e.decls.insert(at, ("xml".to_string(), crate::model::XML_NS.to_string()));
                     }
+                    // another prefix (or the default) bound to the XML namespace: not something XML can
+                    // spell, but "any tree at all" includes it — the output must still use only bound prefixes
+                    if src.ratio(1, 8) {
+                        let p = ["p", "q", ""][src.choice(3)];
+                        if !(p.is_empty() && e.name.ns.is_empty()) {
+                            e.decls.retain(|(dp, _)| dp != p);
+                            e.decls.push((p.to_string(), crate::model::XML_NS.to_string()));
+                        }
+                    }
                 }
                 if let Some(ch) = n.children_mut() {
                     for c in ch.iter_mut() {
